@@ -14,6 +14,21 @@ LOG = []
 _NAME = "marker.txt"
 
 
+def use_cond_tmp(a, b):
+    c = _log(a) > b
+    if c:
+        return ("gt", a)
+    d = _log(b) > 0
+    if d:
+        r = ("pos", d)
+    else:
+        r = ("neg", b)
+    e = a == b
+    if e:
+        return r, "eq"
+    return r, e
+
+
 def _log(x):
     LOG.append(x)
     return x
@@ -486,7 +501,7 @@ def main():
     lists = [[], [1], [2, 3], [1, 3, 5], [4, 6, 9, 12], [5, 4, 3, 2, 1], [-2, 7, -1, 0], [0, 2, 9]]
     cases = []
     for x, y in itertools.product(ints, ints):
-        for f in ("use_quantifiers", "use_display_loop", "use_display_loop_rebind", "use_pred", "use_pair", "use_pair_attr", "use_reassign", "use_reassign_ret", "use_tuple_assign", "use_bounds", "use_reassign_dead", "use_reassign_loop"):
+        for f in ("use_cond_tmp", "use_quantifiers", "use_display_loop", "use_display_loop_rebind", "use_pred", "use_pair", "use_pair_attr", "use_reassign", "use_reassign_ret", "use_tuple_assign", "use_bounds", "use_reassign_dead", "use_reassign_loop"):
             cases.append((f, (x, y)))
     for x in ints:
         for f in ("use_clip", "use_clip_ret", "use_mutate", "use_order", "use_chain", "use_ifexp", "use_while", "use_displays"):
